@@ -52,10 +52,18 @@ type argSig struct {
 	at     token.Pos
 }
 
+type opSig struct {
+	K    string   `json:"k"` // call | store | mapupdate
+	T    string   `json:"t"` // callee, or owner.field
+	Args []string `json:"a"`
+	at   token.Pos
+}
+
 type funcSig struct {
 	Conds []condSig `json:"conds"`
 	Calls []string  `json:"calls"`
 	Args  []argSig  `json:"args"`
+	Ops   []opSig   `json:"ops"`
 }
 
 func (w *World) sigString(v ssa.Value, d int) string {
@@ -72,14 +80,15 @@ func (w *World) sigString(v ssa.Value, d int) string {
 		}
 		return x.Value.String()
 	case *ssa.Parameter:
-		return "param:" + x.Name()
+		return "$" + x.Name()
 	case *ssa.FreeVar:
-		return "free:" + x.Name()
+		return "$" + x.Name()
 	case *ssa.Global:
 		return "global:" + x.Name()
 	case *ssa.Alloc:
+		// a parameter / variable captured by a literal is an Alloc named after it: the same value as the parameter
 		if x.Comment != "" && !strings.HasPrefix(x.Comment, "complit") && x.Comment != "new" {
-			return "var:" + x.Comment
+			return "$" + x.Comment
 		}
 		return "alloc:" + types.TypeString(x.Type(), func(p *types.Package) string { return p.Name() })
 	case *ssa.FieldAddr:
@@ -141,9 +150,6 @@ func (w *World) sigString(v ssa.Value, d int) string {
 		}
 		return name + "(" + strings.Join(as, ",") + ")"
 	case *ssa.Phi:
-		if x.Comment != "" {
-			return "phi:" + x.Comment
-		}
 		var es []string
 		for _, e := range x.Edges {
 			es = append(es, w.sigString(e, d+2))
@@ -379,6 +385,47 @@ func (w *World) computeSig(root *ssa.Function) funcSig {
 			sig.Args = append(sig.Args, a)
 		})
 	}
+	for _, fn := range familyOf(root).Funcs {
+		eachInstr(fn, func(in ssa.Instruction) {
+			switch x := in.(type) {
+			case ssa.CallInstruction:
+				c := x.Common()
+				if _, isB := c.Value.(*ssa.Builtin); isB {
+					return
+				}
+				s := callSym(c)
+				if s.name == "" || isLogLike(s) {
+					return
+				}
+				if !c.IsInvoke() && !w.isRepoPkg(s.pkg) {
+					// library calls: only those that act on the outside world are interesting, and B3 covers their presence
+					return
+				}
+				o := opSig{K: "call", T: calleeName(w, c), at: x.Pos()}
+				if c.IsInvoke() {
+					o.Args = append(o.Args, w.sigString(c.Value, 2))
+				}
+				for _, a := range c.Args {
+					o.Args = append(o.Args, w.sigString(a, 2))
+				}
+				if len(o.Args) > 0 {
+					sig.Ops = append(sig.Ops, o)
+				}
+			case *ssa.Store:
+				fa, ok := x.Addr.(*ssa.FieldAddr)
+				if !ok {
+					return
+				}
+				owner := "?"
+				if n := namedOf(fa.X.Type()); n != nil {
+					owner = n.Obj().Name()
+				}
+				sig.Ops = append(sig.Ops, opSig{K: "store", T: owner + "." + fieldName(fa.X.Type(), fa.Field), Args: []string{w.sigString(fa.X, 2), w.sigString(x.Val, 2)}, at: x.Pos()})
+			case *ssa.MapUpdate:
+				sig.Ops = append(sig.Ops, opSig{K: "mapupdate", T: "map", Args: []string{w.sigString(x.Map, 2), w.sigString(x.Key, 2), w.sigString(x.Value, 2)}, at: x.Pos()})
+			}
+		})
+	}
 	sig.Calls = sortedKeys(calls)
 	return sig
 }
@@ -434,6 +481,8 @@ func sigRules(w *World, r *Report, prop string) {
 		r.Undecided(prop+"-B1", "reference signatures", 0, "baseline_sigs.json is empty or unreadable")
 		return
 	}
+	r.Rule(prop+"-B5", "operands keep their identity", "at a call of a repository function / interface method, a field store or a map update found again, exactly one operand differs from the reference and the new operand is another value the reference function already uses elsewhere: the wrong one of two same-typed values is used", 0)
+	nOp := 0
 	nCond, nCall, nArg, nCmp := 0, 0, 0, 0
 	for _, fn := range anchoredFuncs(w, prop) {
 		ref, ok := base[sigKeyOf(fn)]
@@ -488,6 +537,55 @@ func sigRules(w *World, r *Report, prop string) {
 				}
 			}
 		}
+		// ---- B5
+		{
+			vocab := map[string]bool{}
+			for _, o := range ref.Ops {
+				for _, a := range o.Args {
+					vocab[a] = true
+				}
+			}
+			grp := func(os []opSig) map[string][]opSig {
+				m := map[string][]opSig{}
+				for _, o := range os {
+					m[o.K+" "+o.T] = append(m[o.K+" "+o.T], o)
+				}
+				return m
+			}
+			rg, cg := grp(ref.Ops), grp(cur.Ops)
+			for _, k := range sortedKeys(rg) {
+				rs, cs := rg[k], cg[k]
+				if len(rs) != len(cs) {
+					continue
+				}
+				for i := range rs {
+					if len(rs[i].Args) != len(cs[i].Args) {
+						continue
+					}
+					nOp++
+					diff := -1
+					nd := 0
+					for a := range rs[i].Args {
+						if rs[i].Args[a] != cs[i].Args[a] {
+							nd++
+							diff = a
+						}
+					}
+					if nd != 1 {
+						continue
+					}
+					nv, ov := cs[i].Args[diff], rs[i].Args[diff]
+					if !vocab[nv] || nv == "…" || ov == "…" || strings.Contains(nv, "…") || strings.Contains(ov, "…") {
+						continue
+					}
+					// constants and nil are not "another value of the function"
+					if nv == "nil" || nv == "true" || nv == "false" || (len(nv) > 0 && (nv[0] == '"' || (nv[0] >= '0' && nv[0] <= '9'))) {
+						continue
+					}
+					r.Fail(prop+"-B5", fmt.Sprintf("%s | %s #%d operand %d", host, k, i+1, diff), cs[i].at, fmt.Sprintf("the reference tree uses `%s` here, this tree uses `%s`, a different value that the function also handles: the wrong one of two same-typed values is passed / stored (every other operand is unchanged)", clip(ov, 80), clip(nv, 80)))
+				}
+			}
+		}
 		// ---- B3
 		have := map[string]bool{}
 		for _, c := range cur.Calls {
@@ -532,6 +630,7 @@ func sigRules(w *World, r *Report, prop string) {
 			}
 		}
 	}
+	r.OK(prop+"-B5", "census", 0, fmt.Sprintf("%d operations matched with the reference", nOp))
 	r.OK(prop+"-B2", "census", 0, fmt.Sprintf("%d comparisons matched with the reference", nCmp))
 	r.OK(prop+"-B3", "census", 0, fmt.Sprintf("%d reference effects looked for", nCall))
 	r.OK(prop+"-B4", "census", 0, fmt.Sprintf("%d calls with same-typed parameters matched with the reference", nArg))
